@@ -38,10 +38,22 @@ def custom_classes(k):
 
         def is_valid(self):
             return self._is_valid()
+
+    class ArrayEdgeSub(ArrayEdge):           # a SUBCLASS with the same data: a different type (e.g. analytic Jacobians added)
+        def calc_jacobians(self):
+            return []
+
+    class OdometrySub(r.EdgeOdometry):
+        pass
     key = "_c17_classes"
     if not hasattr(r, key):
-        setattr(r, key, (ArrayEdge, ScalarEdge))
-    return getattr(r, key)
+        setattr(r, key, (ArrayEdge, ScalarEdge, ArrayEdgeSub, OdometrySub))
+    return getattr(r, key)[:2]
+
+
+def subclasses(k):
+    custom_classes(k)
+    return getattr(k.r, "_c17_classes")[2:]
 
 
 KINDS = (["pose:" + T for T in TYPES] + ["vertex:" + T for T in TYPES] + ["odometry:" + T for T in TYPES]
@@ -264,6 +276,27 @@ def obligations(r, tier, seed):
             k.implies(res, spec, "equals => |x-y| / max(|x|, tol) < tol")
             k.implies(spec, res, "|x-y| / max(|x|, tol) < tol => equals")
         obs.append(Ob("C17/internal/BasePose.equals-exact-formula/%s" % T, exact, tier="internal", funcs=FUNCS[:1], light=True))
+
+    # ---- an edge versus an edge of a SUBCLASS of its class with identical data: different types, unequal in BOTH directions
+    def subclass_pairs(k):
+        r_ = k.r
+        tol = k.pos("tol")
+        A, _S = custom_classes(k)
+        ASub, OSub = subclasses(k)
+        info, est = k.sym_matrix("O", 2), k.vec("z", 2)
+        a, b = A([1, 2], info, est), ASub([1, 2], k.np.array(info), k.np.array(est))
+        o = r_.EdgeOdometry([1, 2], k.sym_matrix("P", 3), k.pose("SE2", "m"))
+        os_ = OSub([1, 2], k.sym_matrix("P", 3), k.pose("SE2", "m"))
+        for x, y, name in ((a, b, "custom edge vs its subclass"), (o, os_, "EdgeOdometry vs a subclass")):
+            for p_, q_, lab in ((x, y, "xy"), (y, x, "yx")):
+                res = k.returns(lambda p_=p_, q_=q_: p_.equals(q_, tol), "%s (%s) returns" % (name, lab))
+                if res is not None:
+                    k.holds(neg(k, res), "%s: different types => unequal (%s)" % (name, lab))
+        ga = r_.Graph([o], [r_.Vertex(1, k.pose("SE2", "v1")), r_.Vertex(2, k.pose("SE2", "v2"))])
+        gb = r_.Graph([os_], [r_.Vertex(1, k.pose("SE2", "v1")), r_.Vertex(2, k.pose("SE2", "v2"))])
+        k.holds(neg(k, ga.equals(gb, tol)), "graphs differing only in an edge's type => unequal")
+        k.holds(neg(k, gb.equals(ga, tol)), "graphs differing only in an edge's type => unequal (reverse)")
+    obs.append(Ob("C17/structure/edge-versus-subclass-edge", subclass_pairs, funcs=FUNCS, light=True))
 
     # canaries
     def canary_loose(k):
